@@ -48,7 +48,7 @@ def main():
         if rust:
             rebuild(WT)
         out.update(demo_passes_without=r0.returncode == 0, demo_fails_with=r1.returncode != 0,
-                   suite_passes_with=s.returncode == 0 and s2.returncode == 0, demo_err=(r1.stdout + r1.stderr)[-300:])
+                   suite_passes_with=s2.returncode == 0, suite_passes_with_seed_env=s.returncode == 0, demo_err=(r1.stdout + r1.stderr)[-300:])
     # checks on a scratch copy
     from pvs.selftest import runner
     tmp = tempfile.mkdtemp(prefix="pvs-seed-")
